@@ -263,7 +263,7 @@ def box_of(blocks, n):
     return lo, hi
 
 
-def worst_case_expectation_moments(P, boxes, a, moments, vconst=None):
+def worst_case_expectation_moments(P, boxes, a, moments, vconst=None, balls=None):
     """sup over distributions of E[a.z] with scenario probabilities p in P, z | s supported on the box boxes[s] = (lo, hi),
     and for each (event, mlo, mhi) in `moments`: E[z | s in event] in [mlo, mhi].  Direct LP in (p, nu_s = p_s E[z|s])."""
     from scipy.optimize import linprog
@@ -323,6 +323,36 @@ def worst_case_expectation_moments(P, boxes, a, moments, vconst=None):
                 for s in ev:
                     r2[nv(s, i)] = -1; r2[pv(s)] = mlo[i]
                 A.append(r2); b.append(0.0)
+    if balls:
+        # second-order-cone mean sets ||E[z_I | s in event] - ctr||_2 <= rad: the same program as a conic one, handed to ECOS
+        # directly (no RSOME involved): rows  rad * sum_ev p_s >= || sum_ev nu_{s,I} - ctr * sum_ev p_s ||_2
+        import scipy.sparse as sp
+        ecos_solve = world.REAL.get('ecos')
+        if ecos_solve is None:
+            import ecos
+            ecos_solve = ecos.solve
+        G = [np.array(A)] if A else []
+        h = [np.array(b, float)] if A else []
+        for j, (lo_, hi_) in enumerate(bounds):
+            if lo_ is not None:
+                r_ = np.zeros((1, N)); r_[0, j] = -1; G.append(r_); h.append(np.array([-float(lo_)]))
+            if hi_ is not None:
+                r_ = np.zeros((1, N)); r_[0, j] = 1; G.append(r_); h.append(np.array([float(hi_)]))
+        nl = sum(g.shape[0] for g in G)
+        q = []
+        for ev, I, ctr, rad in balls:
+            blk = np.zeros((1 + len(I), N))
+            for s in ev:
+                blk[0, pv(s)] = -rad
+                for k_, i in enumerate(I):
+                    blk[1 + k_, nv(s, i)] = -1.0
+                    blk[1 + k_, pv(s)] = ctr[k_]
+            G.append(blk); h.append(np.zeros(1 + len(I))); q.append(1 + len(I))
+        sol = ecos_solve(c, sp.csc_matrix(np.vstack(G)), np.concatenate(h), {'l': nl, 'q': q, 'e': 0},
+                         sp.csc_matrix(np.array(Aeq)), np.array(beq, float), verbose=False, abstol=1e-10, reltol=1e-10, feastol=1e-10)
+        if sol['info']['exitFlag'] not in (0, 10):
+            raise RuntimeError('reference moment SOCP failed: exit flag %s' % sol['info']['exitFlag'])
+        return float(-sol['info']['pcost'])
     res = lp(c, A_ub=np.array(A), b_ub=np.array(b), A_eq=np.array(Aeq), b_eq=np.array(beq), bounds=bounds)
     if res.status != 0:
         raise RuntimeError('reference moment LP failed: status %s' % res.status)
